@@ -20,6 +20,7 @@ from hugr.hugr.node_port import InPort
 from selene_hugr_qis_compiler import check_hugr
 
 SKIP = {"Const", "LoadConst", "prelude.load_nat", "arithmetic.conversions.ifromusize"}
+PACK = {"MakeTuple", "UnpackTuple"}
 
 
 def opname(o):
@@ -52,12 +53,13 @@ def summarize(pkg):
             yield c
             yield from desc(c)
 
-    defs, entry = {}, None
+    defs, outs, entry = {}, {}, None
     for n in h.children(h.module_root):
         op = h[n].op
         if isinstance(op, ops.FuncDefn):
             base = op.f_name.split("__")[0]
             defs[base] = defs.get(base, 0) + 1
+            outs.setdefault(base, set()).add(len(op.signature.body.output))
             if op.f_name == "main":
                 entry = n
     memo = {}
@@ -73,7 +75,7 @@ def summarize(pkg):
         key = (n.idx, tuple(map(str, env)))
         if key in memo:
             return memo[key]
-        consts, hist, calls = [], {}, []
+        consts, hist, packs, calls = [], {}, {}, []
         for d in desc(n):
             o = h[d].op
             name = opname(o)
@@ -81,18 +83,20 @@ def summarize(pkg):
                 consts.append(constrepr(o.val))
             elif name == "prelude.load_nat":
                 consts.append(f"int:{resolve(o.args[0], env)}")
-            if name not in SKIP:
+            if name in PACK:
+                packs[name] = packs.get(name, 0) + 1
+            elif name not in SKIP:
                 hist[name] = hist.get(name, 0) + 1
             if isinstance(o, ops.Call):
                 targs = [resolve(a, env) for a in o.type_args]
                 for p in h.linked_ports(InPort(d, o._function_port_offset())):
                     calls.append(unfold(p.node, targs))
-        out = {"consts": sorted(consts), "ops": dict(sorted(hist.items())),
+        out = {"consts": sorted(consts), "ops": dict(sorted(hist.items())), "packs": dict(sorted(packs.items())),
                "calls": sorted(calls, key=lambda t: json.dumps(t, sort_keys=True))}
         memo[key] = out
         return out
 
-    return {"valid": valid, "defs": defs, "unfold": unfold(entry, []) if entry is not None else None}
+    return {"valid": valid, "defs": defs, "outs": {k: sorted(v) for k, v in outs.items()}, "unfold": unfold(entry, []) if entry is not None else None}
 
 
 def compile_src(ident, kind, src):
